@@ -175,8 +175,37 @@ func c20R1(p *core.Program, r *core.Report, infl *core.Func) {
 		}
 		return true
 	})
+	// a returned concatenation: its leaves (through single-definition locals) are the parts
+	ast.Inspect(arm.Body, func(n ast.Node) bool {
+		if _, ok := n.(*ast.FuncLit); ok {
+			return false
+		}
+		ret, ok := n.(*ast.ReturnStmt)
+		if !ok || len(ret.Results) != 1 {
+			return true
+		}
+		var leaves func(e ast.Expr) []ast.Expr
+		leaves = func(e ast.Expr) []ast.Expr {
+			e, _ = core.Resolve(info, infl.Body, e)
+			if b, isBin := ast.Unparen(e).(*ast.BinaryExpr); isBin && b.Op == token.ADD {
+				return append(leaves(b.X), leaves(b.Y)...)
+			}
+			return []ast.Expr{e}
+		}
+		ls := leaves(ret.Results[0])
+		if len(ls) < 2 {
+			return true
+		}
+		for _, a := range ls {
+			writes++
+			r.Check(!core.Mentions(info, a, s), rule, infl, "irregular arm writes "+argShape(info, a, s, res), ret.Pos(),
+				"operand is built from the match's captures / the replacement table",
+				"the rebuilt word takes `"+core.ExprStr(a)+"` from a fixed offset of the whole input instead of the matched word")
+		}
+		return true
+	})
 	if writes == 0 {
-		r.Unknown(rule, infl, "irregular arm result construction", arm.Pos(), "no builder writes found in the irregular arm")
+		r.Unknown(rule, infl, "irregular arm result construction", arm.Pos(), "no builder writes or returned concatenation found in the irregular arm")
 	}
 }
 
@@ -388,9 +417,23 @@ func c20R3(p *core.Program, r *core.Report) bool {
 	const rule = "R3"
 	r.Floor(rule, 3)
 	ok := true
-	initf := p.FuncByName("pkg/inflector/internal", "(*Rule).Init")
+	// the function that compiles the irregular pattern (Init or a helper of it)
+	var initf *core.Func
+	for _, f := range p.Funcs() {
+		if core.RelPkg(f.Pkg.PkgPath) != "pkg/inflector/internal" || f.Decl == nil {
+			continue
+		}
+		ast.Inspect(f.Body, func(n ast.Node) bool {
+			if as, isAs := n.(*ast.AssignStmt); isAs && len(as.Lhs) == 1 {
+				if fld := core.FieldOf(f.Info(), as.Lhs[0]); fld != nil && fld.Name() == "compiledIrregular" {
+					initf = f
+				}
+			}
+			return true
+		})
+	}
 	if initf == nil {
-		r.Anchor(rule, "pkg/inflector/internal.(*Rule).Init")
+		r.Anchor(rule, "assignment of Rule.compiledIrregular in pkg/inflector/internal")
 		return false
 	}
 	info := initf.Info()
@@ -499,7 +542,14 @@ func c20R3(p *core.Program, r *core.Report) bool {
 	}
 	// irregularMap is filled from exactly these fields
 	stores := 0
-	ast.Inspect(initf.Body, func(n ast.Node) bool {
+	var storeBodies []ast.Node
+	for _, f := range p.Funcs() {
+		if core.RelPkg(f.Pkg.PkgPath) == "pkg/inflector/internal" && f.Decl != nil {
+			storeBodies = append(storeBodies, f.Body)
+		}
+	}
+	for _, sb := range storeBodies {
+	ast.Inspect(sb, func(n ast.Node) bool {
 		as, isAs := n.(*ast.AssignStmt)
 		if !isAs || len(as.Lhs) != 1 {
 			return true
@@ -519,13 +569,15 @@ func c20R3(p *core.Program, r *core.Report) bool {
 		}
 		return true
 	})
+	}
 	if stores == 0 {
 		r.Anchor(rule, "store into Rule.irregularMap in Init")
 		return false
 	}
-	// no other store into irregularMap anywhere
+	// no other store into irregularMap anywhere (outside functions confined to initialisation)
+	ioSet := initOnly(p)
 	for _, f := range p.Funcs() {
-		if f == initf {
+		if f == initf || (f.Root().Obj() != nil && ioSet[f.Root().Obj()]) {
 			continue
 		}
 		ast.Inspect(f.Body, func(n ast.Node) bool {
